@@ -348,6 +348,8 @@ def check_truthiness(ck, R):
 
 
 def check(ck):
+    from .memo import check_new_memo_tables
+    ck.run(check_new_memo_tables, ck, "C17.M1", ('partition', 'storage_base', 'storage_filesystem'))
     ck.run(check_truthiness, ck, "C17.R4")
     from .c11 import check_versioned_key_codec
     ck.rule("C17.R6", "index entries' versioned keys are written as key#version and split at the last '#' (partition keys may contain '#')", 2)
